@@ -7,6 +7,7 @@ import (
 	"errors"
 	"fmt"
 	"math/rand"
+	"os"
 	"sort"
 	"sync"
 	"testing"
@@ -716,7 +717,7 @@ func runC06Live(c C06LiveCase) *pOutcome {
 		defer func() {
 			_ = s.Close()
 			for _, suf := range []string{"", "-wal", "-shm"} {
-				_ = removeFile(path + suf)
+				_ = os.Remove(path + suf)
 			}
 		}()
 		st = s
